@@ -36,6 +36,7 @@ type hOp struct {
 	N    int    `json:"n,omitempty"`    // ack: up to N pending events; ackidx: index; saveend/crash: writes applied
 	Fail bool   `json:"fail,omitempty"` // save / saveend: the store rejects
 	Ord  []int  `json:"ord,omitempty"`  // saveend / crash: per-vBucket write order seed
+	Old  bool   `json:"old,omitempty"`  // deliver (with skipUntil configured): a document whose CAS is old (a restored / replicated document keeps its CAS): it lies before skipUntil although newer events were sent before it
 	Torn int    `json:"torn,omitempty"` // crash on the file backend: the process dies inside a save's file write, leaving 1: an empty file, 2: half of the content, 3: a prefix chosen by N
 }
 
@@ -61,6 +62,7 @@ type srvEvent struct {
 	Seq  uint64
 	Kind string
 	Key  string
+	Old  bool // the document's CAS lies far in the past
 }
 
 type srvVb struct {
@@ -705,14 +707,28 @@ func (s *session) rebalance(op hOp) {
 	// C03: events the server sends on the re-requested streams while the rebalance is still completing (every request
 	// answered, AfterStreamStart running) belong to the new session: delivered like any other
 	builtInHook := false
-	if s.oracles["C03"] && !s.oracles["C12"] && op.Snap%3 != 2 && !(s.scrapeClosed != nil && op.AtL) {
+	if (s.oracles["C03"] || s.oracles["C04"]) && !s.oracles["C12"] && op.Snap%3 != 2 && !(s.scrapeClosed != nil && op.AtL) {
 		s.hand.hook("ASStart", func() {
+			// the old session is closed: what the offset tracker is told from here on belongs to the new one
+			s.trackSeen = len(s.cons.trackLog())
+			s.trackBase = s.trackSeen
 			s.buildModel(nOpens)
 			builtInHook = true
 			for i, k := 0, 1+((op.Snap%3)+3)%3; i < k && s.viol == nil; i++ {
-				s.deliver(hOp{Op: "deliver", Vb: op.Vb + i, Kind: "mut", Snap: i})
+				s.deliver(hOp{Op: "deliver", Vb: op.Vb + i, Kind: []string{"mut", "mut", "adv"}[i%3], Snap: i})
+				if s.oracles["C04"] && s.viol == nil {
+					// ... and settled right away: the position follows, as at any other time
+					s.ack(hOp{Op: "ack", Vb: op.Vb + i, N: 1})
+				}
 			}
 			s.label("delivered_while_rebalance_completes")
+		})
+	}
+	// C05: an explicit save (Dcp.Commit) from inside BeforeStreamStop of the rebalance - the positions are still there
+	if s.oracles["C05"] && s.metaI == nil && s.inflight == nil && op.Snap%2 == 0 {
+		s.hand.hook("BSStop", func() {
+			s.save(hOp{Op: "save"})
+			s.label("commit_inside_before_stream_stop_of_rebalance")
 		})
 	}
 	double := s.oracles["C16"] && ((op.N%3)+3)%3 == 0 && s.cfg.Dcp.Group.Membership.Type != "dynamic"
@@ -789,9 +805,9 @@ func (s *session) rebalance(op hOp) {
 		}
 		s.label("range_streamed_after_rebalance")
 	}
-	s.trackSeen = len(s.cons.trackLog())
-	s.trackBase = s.trackSeen
 	if !builtInHook {
+		s.trackSeen = len(s.cons.trackLog())
+		s.trackBase = s.trackSeen
 		s.buildModel(nOpens)
 	}
 	if endedInRebalance >= 0 && s.oracles["C12"] {
@@ -906,6 +922,9 @@ func internalForm(e srvEvent) string { return []string{"mut", "del", "exp"}[e.Se
 // feed hands one server event to the real observer exactly as gocbcore's read loop would.
 func feedEvent(o couchbase.Observer, vb uint16, e srvEvent) {
 	cas := uint64(1700000000+e.Seq) * 1_000_000_000
+	if e.Old {
+		cas = uint64(1600000000+e.Seq) * 1_000_000_000
+	}
 	kind := e.Kind
 	if kind == "ikey" || kind == "txn" {
 		kind = internalForm(e)
@@ -959,7 +978,7 @@ func (s *session) deliver(op hOp) {
 			s.excluded++
 		}
 		seq := m.lastSent + 1 + uint64(op.Gap)
-		e = srvEvent{Seq: seq, Kind: kind}
+		e = srvEvent{Seq: seq, Kind: kind, Old: op.Old && s.cfg.Dcp.Listener.SkipUntil != nil && isDocKind(kind)}
 		e.Key = keyFor(kind, m.vb, seq)
 		sv.hist = append(sv.hist, e)
 	} else {
@@ -1042,6 +1061,15 @@ func (s *session) deliver(op hOp) {
 		}
 		ev.skipped = true
 		s.label("dropped_before_skip_until")
+		if e.Old {
+			s.label("dropped_old_cas_after_newer_events")
+		}
+		// a dropped event is not settled: it does not move the tracked position
+		if offs, _, _ := s.st.GetOffsets(); offs != nil {
+			if off, ok := offs.Load(m.vb); ok && off.SeqNo != m.maxSettle {
+				s.fail("C04", "vb %d: tracked position %d after %s event seq %d was dropped by the skipUntil filter; it was neither acknowledged nor absorbed, the furthest settled position is %d", m.vb, off.SeqNo, e.Kind, e.Seq, m.maxSettle)
+			}
+		}
 	} else if isAbsorbedKind(e.Kind) {
 		if len(evs) != before {
 			s.fail("C14", "vb %d: %s event seq %d (key %q) reached the consumer", m.vb, e.Kind, e.Seq, e.Key)
@@ -1087,7 +1115,7 @@ func (s *session) deliver(op hOp) {
 // beforeSkipUntil: the event time the harness gives an event is 1 700 000 000 s + its seqno (see feedEvent)
 func (s *session) beforeSkipUntil(e srvEvent) bool {
 	su := s.cfg.Dcp.Listener.SkipUntil
-	return su != nil && time.Unix(int64(1700000000+e.Seq), 0).Before(*su)
+	return su != nil && (e.Old || time.Unix(int64(1700000000+e.Seq), 0).Before(*su))
 }
 
 // settle records that an event became settled (acknowledged or absorbed) at the current step.
